@@ -83,6 +83,32 @@ func init() {
 				c.addExpect("obj.get "+hx(sha1sum(append([]byte("x"), content...))), "roundtrip", "err")
 				cases = append(cases, c)
 			}
+			// multi-MiB periodic payloads (deflate reaches its ~1030:1 limit on them): named by pattern and count
+			bigs := []struct {
+				pat string
+				n   int
+			}{{"\x00", 4 << 20}, {"abc", 5 << 20 / 3}}
+			if ctx.Tier == "thorough" {
+				bigs = append(bigs, struct {
+					pat string
+					n   int
+				}{"\n", 6 << 20}, struct {
+					pat string
+					n   int
+				}{"\xff", 8 << 20}, struct {
+					pat string
+					n   int
+				}{"goit rocks\n", 1 << 19})
+			}
+			for i, b := range bigs {
+				data := bytes.Repeat([]byte(b.pat), b.n)
+				k := kinds[i%3]
+				c := Case{Name: fmt.Sprintf("big-periodic-%d-len%d", i, len(data)), Tag: fmt.Sprintf("kind=%s,len<%d", k, lenBucket(len(data)))}
+				c.add("st.clear")
+				c.addExpect(fmt.Sprintf("obj.big %s %s %d", k, hx([]byte(b.pat)), b.n), "roundtrip",
+					fmt.Sprintf("%s %s %d %s", hx(sha1sum(objContent(k, data))), k, len(data), hx(sha1sum(data))))
+				cases = append(cases, c)
+			}
 			// a crowded store: several hundred objects in ONE store, so that most fan-out directories
 			// (objects/xx) hold several objects, then every one is read back and stored again
 			nCrowd := 700
@@ -127,10 +153,13 @@ func init() {
 			if c.Tag == "crowded-store" {
 				return len(impl) > 800 && strings.HasPrefix(impl[800], "ok ")
 			}
+			if strings.HasPrefix(c.Name, "big-") {
+				return len(impl) > 1 && !strings.Contains(impl[1], "err")
+			}
 			return len(impl) > 3 && strings.HasPrefix(impl[3], "ok ")
 		},
 		Rule: "payload pool: SHA-1 block-boundary lengths, all 256 byte values, header look-alikes ('blob 3\\0abc', leading digits/spaces), " +
-			"invalid UTF-8, random and highly compressible strings up to 64 KiB (thorough: up to 3 MiB) x kinds blob/tree/commit; each case stores, " +
+			"invalid UTF-8, random and highly compressible strings up to 64 KiB (thorough: up to 3 MiB), periodic payloads of 4-5 MiB (thorough: up to 8 MiB) that deflate at its limit ratio x kinds blob/tree/commit; each case stores, " +
 			"reads back, stores other content, stores again and reads both back; command level: adaptive histories of file writes, hash-object, add, cat-file -t/-p, commit on the real binary judged by the C01 specification (id printed = SHA-1 of 'blob <len>\\0<bytes>', stored blob = file bytes, cat-file gives kind and bytes back, stored objects never change) and compared with the model (`sha`, `cmd.cat-file`); plus one crowded store (700 objects, thorough 3000, in one store so that fan-out directories are shared; all read back and every 7th stored again), through NewObject/Write/GetObject in-process with an independent " +
 			"inflate + crypto/sha1; a case is distinct by its script and non-trivial when the stored object was read back successfully",
 		Theorems: []string{"C01.decode_encode", "C01.get_put", "C01.put_frame", "C01.put_idem", "C01.id_eq", "C01.encode_injective"},
